@@ -38,6 +38,17 @@ Theorem C12_print_parse_rational :
 Proof. exact print_parse_rational_lemma. Qed.
 Print Assumptions C12_print_parse_rational.
 
+(* The symbolic form (sign, numerator, denominator, decimal exponent) that the model runner uses for long exponents
+   accepts exactly the strings [denote] accepts and names the same rational. *)
+Theorem C12_denote_sci_agrees :
+  forall s, match denote_sci s, denote s with
+            | Some t, Some q => q == sci_val t
+            | None, None => True
+            | _, _ => False
+            end.
+Proof. exact denote_sci_spec. Qed.
+Print Assumptions C12_denote_sci_agrees.
+
 (* Two correctly rounded doubles of the same rational are equal, or the rational lies exactly half way between
    them (and then ties-to-even selects one: see nearest_double). *)
 Theorem C12_nearest_double_unique_up_to_tie :
@@ -55,6 +66,12 @@ Theorem C12_nearest_doubleb_sound :
     exists m e, dyadic_val m e == dyadic_val m0 e0 /\ closest q m e.
 Proof. exact nearest_doubleb_sound. Qed.
 Print Assumptions C12_nearest_doubleb_sound.
+
+(* ... and so is the underflow shortcut: |q| <= 2^-1075 rounds to zero. *)
+Theorem C12_underflowsb_sound :
+  forall q, underflowsb q = true -> closest q 0 (-1074).
+Proof. exact underflowsb_sound. Qed.
+Print Assumptions C12_underflowsb_sound.
 
 (* "In rational read mode every literal becomes exactly the rational it denotes" is REFUTED for ratFromString as it
    is coded (model rat_code, tied to src/soplex/rational.h by the correspondence): whatever finite double the C
